@@ -47,26 +47,23 @@ Proof. exact layout_seq_novalidation. Qed.
 
 (* ---- reverse direction: validated decoding accepts only canonical bytes ---- *)
 
-(* For ALL schemas of the fragment that do not contain time.Time (wfc: also no zero-size sequence elements, pointer
-   targets the encoder supports, interface alternatives registered under their own code), ALL byte strings:
-   if the validating decoder accepts b and consumes n bytes, re-encoding the value with validation yields b[:n]. *)
-Theorem C03_canonical_partial : forall s, wfc s -> forall tot d b v n, wfb b ->
-  decode true tot s b = Ok (v, n) -> encode true d s v = Ok (firstn n b).
+(* For ALL schemas of the fragment (wfc: no zero-size sequence elements, pointer targets the encoder supports,
+   interface alternatives registered under their own code) and ALL byte strings: if the validating decoder accepts b
+   and consumes n bytes, re-encoding the decoded value with validation yields exactly b[:n].
+   Guard of the property (times_ok): every decoded time stamp lies in [0, MaxInt64) ns, i.e. no stamp of the input was
+   saturated or wrapped by ReadTime (the documented non-injective case). *)
+Theorem C03_canonical : forall s, wfc s -> forall tot d b v n, wfb b ->
+  decode true tot s b = Ok (v, n) -> times_ok s v -> encode true d s v = Ok (firstn n b).
 Proof. exact canonical. Qed.
 
-(* time.Time itself, under the guard of the property (stamp inside the int64 nanosecond range) *)
+(* time.Time itself, with the guard stated on the wire stamp *)
 Theorem C03_canonical_time : forall tot d b v n, wfb b -> decode true tot STime b = Ok (v, n) ->
   (Z.of_N (le_dec (firstn 8 b)) <= MaxInt64)%Z -> encode true d STime v = Ok (firstn n b).
 Proof. exact canonical_time. Qed.
 
-(* full statement (time stamps anywhere inside the schema, guarded by no_time_saturation): not proved as one theorem *)
-Definition C03_canonical_full_statement : Prop :=
-  forall (no_time_saturation : schema -> bytes -> Prop) s tot d b v n, wfb b -> no_time_saturation s b ->
-    decode true tot s b = Ok (v, n) -> encode true d s v = Ok (firstn n b).
-
 (* no malleability *)
 Theorem C03_injective : forall s, wfc s -> forall tot b1 b2 v n1 n2, wfb b1 -> wfb b2 ->
-  decode true tot s b1 = Ok (v, n1) -> decode true tot s b2 = Ok (v, n2) -> firstn n1 b1 = firstn n2 b2.
+  decode true tot s b1 = Ok (v, n1) -> decode true tot s b2 = Ok (v, n2) -> times_ok s v -> firstn n1 b1 = firstn n2 b2.
 Proof. exact canonical_injective. Qed.
 
 Theorem C03_refuted_time_saturation :
@@ -76,7 +73,8 @@ Proof. exact refuted_time_saturation. Qed.
 
 Example C03_canonical_nonvacuous :
   wfc exc_schema /\
-  exists b v, wfb b /\ Decode true exc_schema b = Ok (v, length b) /\ Encode true exc_schema v = Ok b /\ (20 < length b)%nat.
+  exists b v, wfb b /\ Decode true exc_schema b = Ok (v, length b) /\ times_ok exc_schema v /\
+              Encode true exc_schema v = Ok b /\ (20 < length b)%nat.
 Proof. exact canonical_nonvacuous. Qed.
 
 Example C03_noncanonical_rejected :
@@ -95,6 +93,6 @@ Proof. exact noncanonical_rejected. Qed.
 Print Assumptions C03_layout_int.
 Print Assumptions C03_layout_time.
 Print Assumptions C03_layout_sequence.
-Print Assumptions C03_canonical_partial.
+Print Assumptions C03_canonical.
 Print Assumptions C03_canonical_time.
 Print Assumptions C03_injective.
